@@ -1240,6 +1240,7 @@ type c14File struct {
 	only     bool  // replay: only the prefix of onlyN bytes / only the failing call onlyN
 	onlyN    int
 	onlyMode string
+	onlyKeep int
 }
 
 func c14Files(ctx *core.Ctx) []*c14File {
@@ -1324,8 +1325,9 @@ func c14ReadOutcome(r io.ReaderAt, size int64, f *c14File) (class string, err er
 		return "altered", fmt.Errorf("column %d entry %d: %s", c, i, desc)
 	}
 	// second path: page readers of every column chunk
+	nvals := make([]int64, ncol)
 	for _, rg := range pf.RowGroups() {
-		for _, cc := range rg.ColumnChunks() {
+		for ci, cc := range rg.ColumnChunks() {
 			pages := cc.Pages()
 			for {
 				p, err := pages.ReadPage()
@@ -1336,9 +1338,17 @@ func c14ReadOutcome(r io.ReaderAt, size int64, f *c14File) (class string, err er
 					pages.Close()
 					return "read-error", err
 				}
+				if ci < ncol {
+					nvals[ci] += p.NumValues()
+				}
 				parquet.Release(p)
 			}
 			pages.Close()
+		}
+	}
+	for ci := range nvals {
+		if ci < len(f.cols) && nvals[ci] != int64(len(f.cols[ci])) {
+			return "altered", fmt.Errorf("column %d: the page readers returned %d values instead of %d", ci, nvals[ci], len(f.cols[ci]))
 		}
 	}
 	return "complete", nil
@@ -1664,10 +1674,23 @@ type c14ReaderAt struct {
 	calls  int32
 	hit    bool
 	hitLen int
+	keep   int        // short modes: bytes delivered before the error; < 0 = half of the request
+	record bool       // log (offset, length) of every call
+	log    [][2]int64 // single-goroutine readers only
+}
+
+func (x *c14ReaderAt) cut(n int) int {
+	if x.keep < 0 || x.keep > n {
+		return n / 2
+	}
+	return x.keep
 }
 
 func (x *c14ReaderAt) ReadAt(p []byte, off int64) (int, error) {
 	i := atomic.AddInt32(&x.calls, 1) - 1
+	if x.record {
+		x.log = append(x.log, [2]int64{off, int64(len(p))})
+	}
 	fail := x.failAt >= 0 && (i == x.failAt || (strings.HasSuffix(x.mode, "sticky") && i > x.failAt))
 	if !fail {
 		return x.r.ReadAt(p, off)
@@ -1677,10 +1700,10 @@ func (x *c14ReaderAt) ReadAt(p []byte, off int64) (int, error) {
 	}
 	switch strings.TrimSuffix(x.mode, "sticky") {
 	case "short":
-		n, _ := x.r.ReadAt(p[:len(p)/2], off)
+		n, _ := x.r.ReadAt(p[:x.cut(len(p))], off)
 		return n, errC14Injected
 	case "shorteof":
-		n, _ := x.r.ReadAt(p[:len(p)/2], off)
+		n, _ := x.r.ReadAt(p[:x.cut(len(p))], off)
 		return n, io.EOF
 	}
 	return 0, errC14Injected
@@ -1710,6 +1733,10 @@ func RunC14ReadAt(ctx *core.Ctx) {
 			f.only = true
 			f.onlyN, _ = rp.num("failing_call")
 			f.onlyMode = rp.str("mode")
+			f.onlyKeep = -1
+			if k, ok := rp.num("kept_bytes"); ok && strings.HasPrefix(f.onlyMode, "short") {
+				f.onlyKeep = k
+			}
 		}
 		wg.Add(1)
 		sem <- struct{}{}
@@ -1727,9 +1754,11 @@ func RunC14ReadAt(ctx *core.Ctx) {
 
 func c14ReadAtFile(ctx *core.Ctx, f *c14File, sample bool) {
 	r := ctx.Rand("c14/readat/" + f.name)
+	var calls [][2]int64
 	count := func() (int, string) {
-		x := &c14ReaderAt{r: bytes.NewReader(f.data), failAt: -1}
+		x := &c14ReaderAt{r: bytes.NewReader(f.data), failAt: -1, keep: -1, record: true}
 		class, _ := c14ReadOutcome(x, int64(len(f.data)), f)
+		calls = x.log
 		return int(x.calls), class
 	}
 	n1, class := count()
@@ -1738,10 +1767,11 @@ func c14ReadAtFile(ctx *core.Ctx, f *c14File, sample bool) {
 		ctx.Fail("L1", "fault-free-read-fails", "reading the file through a pass-through ReaderAt does not return the rows: "+class, map[string]any{"file": f.desc})
 		return
 	}
-	if n1 != n2 {
+	if n1 != n2 || len(calls) != n1 {
 		ctx.Hist("readat.deterministic", "no")
 		return
 	}
+	bounds := c14PageBounds(f)
 	ctx.Hist("readat.calls", sizeBucket(n1))
 	idx := make([]int, n1)
 	for i := range idx {
@@ -1755,24 +1785,58 @@ func c14ReadAtFile(ctx *core.Ctx, f *c14File, sample bool) {
 	if f.only {
 		idx = []int{f.onlyN}
 	}
+	type fault struct {
+		mode string
+		keep int
+	}
 	for _, i := range idx {
 		if i < 0 || i >= n1 {
 			continue
 		}
-		for _, mode := range []string{"full", "short", "shorteof", "fullsticky"} {
-			if f.only && f.onlyMode != "" && mode != f.onlyMode {
-				continue
+		off, ln := calls[i][0], int(calls[i][1])
+		// short reads: half of the request, its ends, and every cut that falls on a page boundary
+		// (the place where a premature io.EOF looks like the end of a column chunk)
+		cuts := []int{-1}
+		if ln > 2 {
+			cuts = append(cuts, 1, ln-1)
+		}
+		var onBound []int
+		for _, b := range bounds {
+			if b > off && b < off+int64(ln) {
+				onBound = append(onBound, int(b-off))
 			}
-			x := &c14ReaderAt{r: bytes.NewReader(f.data), failAt: int32(i), mode: mode}
+		}
+		if max := ctx.Scale(6, 1000); len(onBound) > max {
+			r.Shuffle(len(onBound), func(a, b int) { onBound[a], onBound[b] = onBound[b], onBound[a] })
+			onBound = onBound[:max]
+		}
+		cuts = append(cuts, onBound...)
+		faults := []fault{{"full", -1}, {"fullsticky", -1}}
+		for _, c := range cuts {
+			faults = append(faults, fault{"short", c}, fault{"shorteof", c})
+		}
+		if f.only && f.onlyMode != "" {
+			faults = []fault{{f.onlyMode, f.onlyKeep}}
+		}
+		for _, ft := range faults {
+			mode := ft.mode
+			x := &c14ReaderAt{r: bytes.NewReader(f.data), failAt: int32(i), mode: mode, keep: ft.keep}
 			class, err := c14ReadOutcome(x, int64(len(f.data)), f)
-			if !x.hit || (mode != "full" && mode != "fullsticky" && x.hitLen/2 == x.hitLen) {
+			kept := 0
+			if mode == "short" || mode == "shorteof" {
+				kept = x.cut(x.hitLen)
+			}
+			if !x.hit || (mode != "full" && mode != "fullsticky" && kept == x.hitLen) {
 				ctx.Hist("readat.skipped", "fault-not-effective")
 				continue // call i was not reached, or a zero-length read: no fault was injected
 			}
-			ctx.Case(fmt.Sprintf("readat|%s|%d|%s", f.name, i, mode), i > 0)
+			if ft.keep >= 0 && mode == "shorteof" {
+				ctx.Hist("readat.cut", "chosen")
+			}
+			ctx.Case(fmt.Sprintf("readat|%s|%d|%s|%d", f.name, i, mode, kept), i > 0)
 			ctx.Hist("readat.outcome "+mode, class)
 			detail := map[string]any{"file": f.desc, "name": f.name, "file_size": len(f.data), "failing_call": i, "calls_fault_free": n1,
-				"mode": mode, "read_length": x.hitLen, "outcome": class}
+				"mode": mode, "read_length": x.hitLen, "kept_bytes": kept, "outcome": class}
 			if err != nil {
 				detail["error"] = err.Error()
 			}
@@ -1794,6 +1858,27 @@ func c14ReadAtFile(ctx *core.Ctx, f *c14File, sample bool) {
 			}
 		}
 	}
+}
+
+// c14PageBounds lists the file offsets at which a page starts or a column chunk ends.
+func c14PageBounds(f *c14File) (bounds []int64) {
+	defer func() { recover() }()
+	pf, err := parquet.OpenFile(bytes.NewReader(f.data), int64(len(f.data)), f.opts...)
+	if err != nil {
+		return nil
+	}
+	for _, oi := range pf.OffsetIndexes() {
+		for _, pl := range oi.PageLocations {
+			bounds = append(bounds, pl.Offset, pl.Offset+int64(pl.CompressedPageSize))
+		}
+	}
+	for _, rg := range pf.Metadata().RowGroups {
+		for _, cc := range rg.Columns {
+			bounds = append(bounds, cc.MetaData.DataPageOffset)
+		}
+	}
+	sort.Slice(bounds, func(i, j int) bool { return bounds[i] < bounds[j] })
+	return bounds
 }
 
 // L2 of the readAt wrapper
